@@ -721,3 +721,50 @@ pub fn c15_merge_%(k)d() {
 }
 ''' % dict(k=k, doc=docs[k], tier="quick" if k in (0, 1) else "thorough", to=600 if k < 2 else 2400, mem=8 if k < 2 else 24)
     return {"c15_op.rs": out}
+
+
+# ------------------------------------------------------------------------------------
+# C01: totality - helpers per scalar shape pair, operator closures per accepted arity, substr extremes
+# ------------------------------------------------------------------------------------
+
+def gen_c01(tier):
+    out = prelude("c01_op.rs")
+    names = ["null", "bool", "i64", "u64", "f64"]
+    quick_pairs = {(4, 4), (2, 3), (1, 4), (0, 2), (3, 1)}
+    for a in range(5):
+        for b in range(5):
+            out += '''
+//@ harness: c01_helpers_%(na)s_%(nb)s tier=%(tier)s timeout=400 kind=main mem=8
+//@ encodes: every public js_op helper: abstract_eq/ne/lt/gt/lte/gte, strict_eq/ne, abstract_minus/div/mod, to_negative, to_number, parse_float, abstract_max/min, parse_float_add/mul (vectors of 0 and 2)
+//@ bound: operands (%(na)s, %(nb)s) with every payload: each helper returns, no panic / overflow / division trap
+#[cfg_attr(kani, kani::proof)]
+#[cfg_attr(kani, kani::unwind(5))]
+#[cfg_attr(kani, kani::stub(std::fmt::format, stub_format))]
+#[cfg_attr(kani, kani::stub(crate::js_op::to_string, to_string_opaque))]
+#[cfg_attr(kani, kani::stub(crate::js_op::str_to_number, s2n_unreachable))]
+#[cfg_attr(verif_replay, test)]
+pub fn c01_helpers_%(na)s_%(nb)s() {
+    helpers_case(%(a)d, %(b)d);
+}
+''' % dict(na=names[a], nb=names[b], a=a, b=b, tier="quick" if (a, b) in quick_pairs else "thorough")
+    eager = OPS["OPERATOR_MAP"]
+    quick_ops = {"<", "substr", "-", "/", "in", "!", "max", "+", "cat", "merge", "==="}
+    for o in eager:
+        if o == "log":
+            continue     # println! (stdout lock, formatting) is outside what CBMC encodes
+        out += '''
+//@ harness: c01_arity_%(id)s tier=%(tier)s timeout=1200 kind=main mem=12
+//@ encodes: OPERATOR_MAP["%(o)s"] closure / operator function, NumParams::is_valid_len
+//@ bound: called with exactly n integer operands (any i64) for every n in 0..4 that the operator's OWN descriptor accepts: no out-of-range operand access, no panic
+//@ cuts: strcount
+#[cfg_attr(kani, kani::proof)]
+#[cfg_attr(kani, kani::unwind(24))]
+#[cfg_attr(kani, kani::stub(std::fmt::format, stub_format))]
+#[cfg_attr(kani, kani::stub(crate::js_op::to_string, to_string_opaque))]
+#[cfg_attr(kani, kani::stub(<serde_json::Value as std::clone::Clone>::clone, value_clone_model))]
+#[cfg_attr(verif_replay, test)]
+pub fn c01_arity_%(id)s() {
+    arity_index_case("%(o)s");
+}
+''' % dict(id=opid(o), o=o, tier="quick" if o in quick_ops else "thorough")
+    return {"c01_op.rs": out}
